@@ -1204,3 +1204,154 @@ def rule_cx1(ctx, rels, scope=None):
         r.ok("CX1", "modules", ",".join(rels), "",
              "no eigensolver output is stored into a default-typed buffer")
     return n_sites
+
+
+_UNTYPED_MAKERS = {"np.zeros", "np.ones", "np.identity", "np.eye", "np.empty",
+                   "np.full", "np.diag", "utils.zeros", "utils.ones",
+                   "utils.identity", "zeros", "ones", "identity"}
+
+
+def rule_lk3(ctx, rels, scope=None):
+    """float64 buffers that receive the caller's data"""
+    r = ctx.r
+    r.rule("LK3", "a buffer made with no type information (np.identity(n), "
+                  "np.zeros(shape), utils.zeros(shape) without like= / "
+                  "dtype= / base_ring; also np.tile of one) is float64 "
+                  "whatever is stored into it: the caller's array data "
+                  "(a parameter, or a local computed from one) is never "
+                  "item-assigned into such a buffer -- complex data would "
+                  "lose its imaginary part with only a ComplexWarning. "
+                  "Buffers for booleans / comparisons / constants and "
+                  "buffers typed with like= are not concerned")
+    n = 0
+    for rel in rels:
+        m = ctx.p.module_by_rel(rel)
+        for f in ctx.p.all_functions:
+            if f.module is not m or (scope is not None and f not in scope):
+                continue
+            params = {p for p in f.params if p not in ("self", "cls")}
+            if not params:
+                continue
+            bufs = {}
+            for st in ast.walk(f.node):
+                if not (isinstance(st, ast.Assign) and len(st.targets) == 1
+                        and isinstance(st.targets[0], ast.Name)
+                        and isinstance(st.value, ast.Call)):
+                    continue
+                c = st.value
+                fn = dotted(c.func)
+                inner = c
+                if fn in ("np.tile", "np.broadcast_to", "np.array",
+                          "np.copy") and c.args \
+                        and isinstance(c.args[0], ast.Call):
+                    inner = c.args[0]
+                    fn = dotted(inner.func)
+                if fn not in _UNTYPED_MAKERS:
+                    continue
+                kws = {k.arg for k in inner.keywords} | {k.arg
+                                                         for k in c.keywords}
+                if {"like", "dtype", "base_ring"} & kws or None in kws:
+                    continue
+                if fn.split(".")[-1] in ("zeros", "ones", "identity") \
+                        and fn.startswith(("utils.", "zeros", "ones",
+                                           "identity")) \
+                        and len(inner.args) > 1:
+                    continue          # (shape, base_ring, dtype) positional
+                if fn in ("np.full",) and len(inner.args) > 1 \
+                        and not isinstance(inner.args[1], ast.Constant):
+                    continue
+                if fn == "np.diag":
+                    continue          # typed by its argument
+                bufs[st.targets[0].id] = st
+            if not bufs:
+                continue
+            def carried(e, tainted):
+                """tainted names whose DATA flows into e: through NumPy /
+                utils calls, arithmetic, indexing and array methods, not
+                through other library calls (a solver's result has the
+                solver's type)"""
+                out = set()
+
+                def go(x):
+                    if isinstance(x, ast.Name):
+                        if x.id in tainted and isinstance(x.ctx, ast.Load):
+                            out.add(x.id)
+                        return
+                    if isinstance(x, ast.Call):
+                        fn = dotted(x.func)
+                        method_of = isinstance(x.func, ast.Attribute) \
+                            and not fn.startswith(("np.", "utils.", "numpy."))
+                        if fn.startswith(("np.", "utils.", "numpy.")):
+                            for a in list(x.args) + [k.value
+                                                     for k in x.keywords]:
+                                go(a)
+                        elif method_of:
+                            go(x.func.value)
+                        return
+                    if isinstance(x, ast.Subscript):
+                        go(x.value)           # not the index
+                        return
+                    if isinstance(x, ast.Attribute):
+                        if x.attr in ("shape", "ndim", "size", "dtype"):
+                            return
+                        go(x.value)
+                        return
+                    if isinstance(x, (ast.Compare, ast.Constant)):
+                        return
+                    for c in ast.iter_child_nodes(x):
+                        go(c)
+                go(e)
+                return out
+
+            # locals computed from parameters (one pass to a fixpoint)
+            tainted = set(params)
+            grew = True
+            while grew:
+                grew = False
+                for st in ast.walk(f.node):
+                    if isinstance(st, ast.Assign) and len(st.targets) == 1 \
+                            and isinstance(st.targets[0], ast.Name) \
+                            and st.targets[0].id not in tainted \
+                            and st.targets[0].id not in bufs:
+                        if carried(st.value, tainted):
+                            tainted.add(st.targets[0].id)
+                            grew = True
+            for st in ast.walk(f.node):
+                if isinstance(st, ast.Assign):
+                    tg, v = st.targets[0], st.value
+                elif isinstance(st, ast.AugAssign):
+                    tg, v = st.target, st.value
+                else:
+                    continue
+                if not (isinstance(tg, ast.Subscript)
+                        and isinstance(tg.value, ast.Name)
+                        and tg.value.id in bufs):
+                    continue
+                n += 1
+                r.analysed(f)
+                inst = f"{f.qualname}:{tg.value.id}"
+                data = sorted(carried(v, tainted))
+                index_only = not data
+                harmless = isinstance(v, (ast.Constant, ast.Compare)) or (
+                    isinstance(v, ast.UnaryOp)
+                    and isinstance(v.op, (ast.Invert, ast.Not))) \
+                    or (isinstance(v, ast.UnaryOp)
+                        and isinstance(v.operand, ast.Constant))
+                if not data or harmless or index_only:
+                    r.ok("LK3", inst, loc(f, st), norm_stmt(st)[:80],
+                         "no caller data stored")
+                    continue
+                d = bufs[tg.value.id]
+                r.violation(
+                    "LK3", f"{f.fq}|{tg.value.id}|untyped", loc(f, st),
+                    norm_stmt(st)[:140],
+                    f"`{tg.value.id}` is created by "
+                    f"`{dotted(d.value)[:60]}` (float64 whatever the input) "
+                    f"and receives the caller's data "
+                    f"({', '.join(data)}): for complex input the imaginary "
+                    "part is discarded with a ComplexWarning and the map / "
+                    "matrix built is that of the real part only",
+                    instance=inst)
+    if n == 0:
+        r.ok("LK3", "modules", ",".join(rels), "",
+             "no item assignment into an untyped buffer")
